@@ -89,6 +89,14 @@ Theorem C09_idle_close_inert : forall c s s', step c s LIdleClose = Some s' ->
 Proof. exact CallLifeProofs.idle_close_inert. Qed.
 Print Assumptions C09_idle_close_inert.
 
+(* every close of a connection - of the current one, or a stale close by a goroutine of an earlier connection - takes
+   connLock and gives it back; the stale close changes nothing else *)
+Theorem C09_close_releases_lock : forall c s l s', l = LConnDown \/ l = LCloseOld -> step c s l = Some s' ->
+  lock s = None /\ lock s' = None /\ calls s' = calls s /\ (forall p, queueLen s' p = queueLen s p) /\ invokeNum s' = invokeNum s /\
+  resp s' = resp s /\ sendq s' = sendq s /\ (l = LCloseOld -> conn_open s' = conn_open s).
+Proof. exact CallLifeProofs.close_releases_lock. Qed.
+Print Assumptions C09_close_releases_lock.
+
 (* the bounds above are not vacuous: the model never blocks the clock for good (finitely many local steps, no tick, lead
    to a state in which the clock can tick) *)
 Theorem C09_no_timelock : forall c s, exists ls s',
